@@ -68,6 +68,12 @@ def run_event_eq(ctx, res: Result):
     srcs = ["a", "b", b"a"]
     dests = ["", "c", b"c"]
     specs = [(ci, s, d, y) for ci in range(len(classes)) for s in srcs for d in dests for y in (False, True)]
+    # second sweep, fewer classes: spellings that some normalisation would identify (canonically equivalent Unicode,
+    # case, trailing separator, "./" prefix, the same bytes as str) - different field values, so different events
+    odd = ["caf\u00e9", "cafe\u0301", "caf\u00e9".encode(), "A", "a", "a/", "./a", "\u212b", "\u00c5"]
+    few = [EVENT_CLASSES.index(n) for n in ("FileCreatedEvent", "FileMovedEvent", "DirMovedEvent")]
+    specs += [(ci, s, d, y) for ci in few for s in odd for d in ["", "caf\u00e9", "cafe\u0301"] for y in (False, True)
+              if (ci, s, d, y) not in set(specs)]
     objs = [classes[ci](s, d, is_synthetic=y) for ci, s, d, y in specs]
     # a second, distinct object per spec, so that equal pairs are not identical objects
     objs2 = [classes[ci](s, d, is_synthetic=y) for ci, s, d, y in specs]
